@@ -5,7 +5,7 @@
    mp_enc/mp_dec = the msgpack codec on Go trees: oracles, quantified. *)
 From Coq Require Import ZArith List Bool.
 Import ListNotations.
-From ZV Require Import Model.Json Proofs.JsonTreeProofs Proofs.JsonParseProofs Proofs.JsonProofs.
+From ZV Require Import Model.Json Model.Msgpack Proofs.JsonTreeProofs Proofs.JsonParseProofs Proofs.JsonProofs Proofs.MsgpackProofs.
 Open Scope Z_scope.
 
 (* ---- 1. the string lemma: every Go string (any code points, any bytes that are not UTF-8,
@@ -158,6 +158,41 @@ Theorem dec_is_number : forall z, in_i64 z = true -> is_json_number (dec z) = tr
 Proof. exact JsonParseProofs.dec_is_number. Qed.
 Print Assumptions dec_is_number.
 
+(* ---- 5b. the msgpack bytes (Model/Msgpack.v: the writer as jsonmsgp.go configures the ugorji
+        msgpack handle, an independent reader of the msgpack format): for EVERY Go tree the writer can
+        be handed (gt_ok: int64 integers, 64 float bits, strings of Unicode scalar values, lengths and
+        counts below 2^32, maps sorted by name), at any nesting depth, inside any continuation and with
+        any fuel from the nesting depth up, the reader gives back exactly that tree ---- *)
+Theorem msgpack_bytes_read_back : forall g, gt_ok g = true -> forall n rest, (gdepth g <= n)%nat ->
+  mp_read n (mp_bytes g ++ rest) = Some (g, rest).
+Proof. exact MsgpackProofs.mp_read_bytes. Qed.
+Print Assumptions msgpack_bytes_read_back.
+
+Theorem msgpack_document_read_back : forall g, gt_ok g = true -> mp_decode (mp_bytes g) = Some g.
+Proof. exact MsgpackProofs.mp_decode_bytes. Qed.
+Print Assumptions msgpack_document_read_back.
+
+(* every int64 in its shortest signed format (fixint, int8/16/32/64) reads back as itself *)
+Theorem msgpack_int_read_back : forall rd z rest, in_i64 z = true ->
+  match mp_int z ++ rest with
+  | c :: r => mp_dispatch rd c r = Some (GInt z, rest)
+  | [] => False
+  end.
+Proof. exact MsgpackProofs.dispatch_int. Qed.
+Print Assumptions msgpack_int_read_back.
+
+(* strict UTF-8 decoding inverts the encoding of every string of Unicode scalar values *)
+Theorem utf8_read_back : forall s, str_valid s = true -> utf8_dec (utf8_bytes s) = Some s.
+Proof. exact MsgpackProofs.utf8_dec_bytes. Qed.
+Print Assumptions utf8_read_back.
+
+(* a Go map filled from members that are already sorted by name with distinct names is that list:
+   Canonical writing and the sorted walk of the decoder see the same order *)
+Theorem go_map_sorted : forall (T : Type) (ms : list (list Z * T)),
+  ssorted (map fst ms) = true -> go_map ms = ms.
+Proof. exact MsgpackProofs.go_map_sorted. Qed.
+Print Assumptions go_map_sorted.
+
 (* ---- 6. non-vacuity: concrete evaluations ---- *)
 Definition fmt0 (sci : bool) (bits : Z) : list Z :=
   if bits =? 4609434218613702656 then (if sci then [49;46;53;101;43;48;48] else [49;46;53]) else [48].
@@ -215,3 +250,46 @@ Example ex_num_boundary :
   num_value pf0 [57;50;50;51;51;55;50;48;51;54;56;53;52;55;55;53;56;48;56] = Crash /\
   num_value pf0 (dec (-9223372036854775808)) = Ok (VInt (-9223372036854775808)).
 Proof. vm_compute. auto. Qed.
+
+(* the msgpack bytes of the record above: fixmap of 4 (members sorted by name: Atype, a, b, zKeyOrder),
+   a = fixarray [float64 1.5, nil, -7], fixstr for the strings; they read back to the Go tree, and the
+   whole route gives the record back *)
+Example ex_msgpack_bytes : msgpack_bytes fmt0 pf0 ex_value =
+  Some [132; 165;65;116;121;112;101; 162;80;116;
+        161;97; 147; 203;63;248;0;0;0;0;0;0; 192; 249;
+        161;98; 168;97;34;92;10;60;195;169;1;
+        169;122;75;101;121;79;114;100;101;114; 146; 161;98; 161;97].
+Proof. vm_compute. reflexivity. Qed.
+
+Example ex_msgpack_route :
+  (match msgpack_bytes fmt0 pf0 ex_value with Some b => unmsgpack_bytes b | None => Crash end) = Ok (norm ex_value)
+  /\ unjson_go pf0 (to_json fmt0 ex_value) = Ok (norm ex_value)
+  /\ (match gtree_of fmt0 pf0 ex_value with Some g => gt_ok g | None => false end) = true.
+Proof. vm_compute. auto. Qed.
+
+(* the integer formats at their boundaries, and the length prefixes at theirs *)
+Example ex_msgpack_ints :
+  map mp_int [0; 127; 128; 32767; 32768; -1; -32; -33; -128; -129; -32769; 2147483648; -9223372036854775808] =
+  [[0]; [127]; [209;0;128]; [209;127;255]; [210;0;0;128;0]; [255]; [224]; [208;223]; [208;128]; [209;255;127];
+   [210;255;255;127;255]; [211;0;0;0;0;128;0;0;0]; [211;128;0;0;0;0;0;0;0]].
+Proof. vm_compute. reflexivity. Qed.
+
+Example ex_msgpack_lens :
+  map str_hdr [0; 31; 32; 255; 256; 65535; 65536] =
+  [[160]; [191]; [217;32]; [217;255]; [218;1;0]; [218;255;255]; [219;0;1;0;0]] /\
+  map arr_hdr [15; 16; 65536] = [[159]; [220;0;16]; [221;0;1;0;0]] /\
+  map map_hdr [15; 16] = [[143]; [222;0;16]].
+Proof. vm_compute. auto. Qed.
+
+(* the reader is strict: truncated input, a str that is not UTF-8 (overlong, surrogate), a key that is
+   not a str, trailing bytes, the formats the encoder never writes *)
+Example ex_msgpack_reject :
+  mp_decode [161] = None /\ mp_decode [162;192;128] = None /\ mp_decode [163;237;160;128] = None /\
+  mp_decode [129;1;1] = None /\ mp_decode [192;192] = None /\ mp_decode [202;0;0;0;0] = None /\
+  mp_decode [145] = None /\ mp_decode [221;255;255;255;255] = None.
+Proof. vm_compute. auto 10. Qed.
+
+(* unsigned formats and members out of order are read as the format says *)
+Example ex_msgpack_foreign :
+  mp_decode [130; 161;98; 204;200; 161;97; 207;0;0;0;0;0;0;1;0] = Some (GMap [([97], GInt 256); ([98], GInt 200)]).
+Proof. vm_compute. reflexivity. Qed.
